@@ -38,8 +38,9 @@
 //!     einval: 1 = the `sendmsg_einval` fallback flag is set before sending
 //!   -> line `[status, max_gso_before, gro_segments, max_gso_after, einval_after, attempts, n_msgs, send_errors, last_errno]`
 //!      then one line per received message, unsplit, exactly as `recv` reported it:
-//!      `[len, stride, ecn, port_ok, ifindex_present, srckind, src.., dstkind, dst.., bytes..]`
-//!   Payload byte i is `(i + 3*(i/256) + salt) mod 256`.
+//!      `[len, stride, ecn, port_ok, ifindex_present, srckind, src.., dstkind, dst.., chunks..]`
+//!   Payload byte i is `(i + 3*(i/256) + salt) mod 256`.  The received bytes are given losslessly as
+//!   chunks `0 p n` (n bytes equal to payload[p..p+n]) / `1 k b1..bk` (k literal bytes), see `compress`.
 #![allow(missing_docs, dead_code, unused_imports, unreachable_pub, clippy::all)]
 
 use std::{
@@ -397,6 +398,76 @@ fn pattern(len: usize, salt: usize) -> Vec<u8> {
         .collect()
 }
 
+/// Lossless run-length encoding of received bytes relative to the transmitted pattern (the raw
+/// bytes of a 64 KiB batch are too many integers for the Coq side to parse): a sequence of
+/// `0 p n` = "the next n bytes equal contents[p..p+n]" and `1 k b1..bk` = k literal bytes.
+/// `hint` is where the previous message ended; it is tried first, so that an in-order message
+/// is always the single chunk `0 hint len`.  The encoding is decoded again and compared before
+/// it is returned, so a bug here panics instead of hiding a corrupted byte.
+fn compress(bytes: &[u8], contents: &[u8], hint: &mut usize, o: &mut Vec<i128>) {
+    let start = o.len();
+    let match_len = |p: usize, j: usize| -> usize {
+        let mut n = 0;
+        while p + n < contents.len() && j + n < bytes.len() && contents[p + n] == bytes[j + n] {
+            n += 1;
+        }
+        n
+    };
+    let mut j = 0;
+    let mut scans = 0;
+    let mut lit: Vec<u8> = Vec::new();
+    let flush = |lit: &mut Vec<u8>, o: &mut Vec<i128>| {
+        if !lit.is_empty() {
+            o.push(1);
+            o.push(lit.len() as i128);
+            o.extend(lit.iter().map(|b| *b as i128));
+            lit.clear();
+        }
+    };
+    while j < bytes.len() {
+        let want = (bytes.len() - j).min(8);
+        let mut best = (match_len(*hint, j), *hint);
+        if best.0 < bytes.len() - j && scans < 64 {
+            scans += 1;
+            for d in 1..contents.len() {
+                let p = (*hint + d) % contents.len();
+                let n = match_len(p, j);
+                if n > best.0 {
+                    best = (n, p);
+                    if n == bytes.len() - j {
+                        break;
+                    }
+                }
+            }
+        }
+        if best.0 >= want && best.0 > 0 {
+            flush(&mut lit, o);
+            o.extend([0, best.1 as i128, best.0 as i128]);
+            j += best.0;
+            *hint = best.1 + best.0;
+        } else {
+            lit.push(bytes[j]);
+            j += 1;
+        }
+    }
+    flush(&mut lit, o);
+    // self-check: decode and compare
+    let mut back: Vec<u8> = Vec::new();
+    let mut k = start;
+    while k < o.len() {
+        if o[k] == 0 {
+            let (p, n) = (o[k + 1] as usize, o[k + 2] as usize);
+            back.extend_from_slice(&contents[p..p + n]);
+            k += 3;
+        } else {
+            let n = o[k + 1] as usize;
+            back.extend(o[k + 2..k + 2 + n].iter().map(|b| *b as u8));
+            k += 2 + n;
+        }
+    }
+    assert!(back == bytes, "verif hook: lossy compression");
+}
+
 fn errno_of(e: &io::Error) -> i128 {
     e.raw_os_error().map_or(-1, |x| x as i128)
 }
@@ -548,6 +619,7 @@ fn loop_op(p: &mut Pair, op: &[i128], outs: &mut Outs) {
     while attempts < 2 {
         attempts += 1;
         msgs.clear();
+        let mut hint = 0usize;
         // ---- send with the real `try_send` (same code path as `send`, errors visible)
         let mut do_send = |t: &Transmit<'_>| {
             let mut spins = 0;
@@ -612,7 +684,7 @@ fn loop_op(p: &mut Pair, op: &[i128], outs: &mut Outs) {
                         ip_out(&mut o, Some(m.addr.ip()));
                         ip_out(&mut o, m.dst_ip);
                         let l = m.len.min(bufsize);
-                        o.extend(storage[k][..l].iter().map(|b| *b as i128));
+                        compress(&storage[k][..l], &contents, &mut hint, &mut o);
                         total += m.len;
                         msgs.push(o);
                     }
